@@ -22,6 +22,10 @@
      C06_columnwise     column j of the result depends on column j of the input only, with
                         curve index k + j;
      C06_length         the number of columns and every column length are preserved.
+   C06_iff, C06_index_kept, C06_text_untouched, C06_none_policy are unfolding lemmas of
+   null_column / null_columns (they hold for every oracle, also the constantly-false one); the
+   property theorems about Read.read and Read.nulleq (C06_read_null, C06_read_cell_iff,
+   C06_nulleq_numeric, C06_null_not_numeric) are in the block "read level" at the end of this file.
    Not covered here: the write side (NaN -> str(NULL), write->read cycle) is checked on the
    implementation by the harness (harness/props/c06.py) and belongs to the writer model of
    C01/C16; the read substitutions of the other null policies are outside Model/Read.v.
